@@ -61,7 +61,7 @@ func decodeSet(p *Program) []*ssa.Function {
 		out = append(out, f)
 	}
 	sort.Slice(out, func(i, j int) bool { return out[i].String() < out[j].String() })
-	return out
+	return p.asUnits(out)
 }
 
 // ruleAlloc: allocation sizes computed from input are bounded.
